@@ -33,7 +33,7 @@ S(x) == ToSet(x)
 
 GraphOf(t) == LET j == Traces[t].graph IN
   [family |-> j.family, msgs |-> S(j.msgs), enums |-> S(j.enums), parent |-> S(j.parent), deps |-> S(j.deps),
-   fields |-> S(j.fields), res |-> S(j.res), refs |-> S(j.refs), order |-> j.order, rpcs |-> S(j.rpcs), files |-> S(j.files)]
+   fields |-> S(j.fields), res |-> S(j.res), refs |-> S(j.refs), order |-> j.order, rpcs |-> S(j.rpcs), files |-> S(j.files), svcfiles |-> S(j.svcfiles)]
 FullSync  == S(Traces[tid].ref.sync)
 FullAsync == S(Traces[tid].ref.async)
 
